@@ -85,9 +85,18 @@ def solver_fault_map(plan):
 def build(plan, rc_dir=None, no_output=True, extra=None):
     knobs = dict(DEFAULT_KNOBS)
     knobs.update(plan.get('knobs') or {})
+    pre = None
+    if plan.get('offline_at_load'):
+        def pre(ss_):
+            # devices that the case brings out of service (switched in later by an event of the plan)
+            for mname, dev in plan['offline_at_load']:
+                mdl = ss_.models[mname]
+                idx = [str(x) for x in mdl.idx.v]
+                if str(dev) in idx:
+                    mdl.u.v[idx.index(str(dev))] = 0
     ss = build_system(plan['case'], knobs=knobs, channels=plan.get('channels') or {},
                       events=plan.get('events') or [], disable_stock_events=plan.get('disable_stock_events', False),
-                      rc_dir=rc_dir, no_output=no_output,
+                      rc_dir=rc_dir, no_output=no_output, pre_setup=pre,
                       extra=dict(extra or {}, **({'flat': True} if plan.get('flat') else {})))
     return ss, knobs
 
@@ -559,6 +568,53 @@ def o_persistence(hist, ss, t0=0.0):
                              (T, idx, rec['uf'][idx], uf), what='fault_flag'))
                 return out
     return out
+
+
+def o_line_effect(ss, tol_abs=1e-6, tol_rel=1e-5):
+    """
+    The status of a branch must be what the network equations see: at the state the run ended in, the power every Line
+    injects at its two terminals (as evaluated by the model) equals the pi-model of its own data times its *current* status.
+    Independent complex arithmetic; branches with asymmetric terminal shunts are left out (C01 territory).
+    Call after the run is finished and digested: it re-evaluates the equations.
+    """
+    out = []
+    L = ss.Line
+    if not L.n or not ss.TDS.initialized:
+        return out, 0
+    ss.TDS.fg_update(ss.exist.pflow_tds)
+    u = np.asarray(L.u.v, dtype=float)
+    r, x = np.asarray(L.r.v, dtype=float), np.asarray(L.x.v, dtype=float)
+    b, g = np.asarray(L.b.v, dtype=float), np.asarray(L.g.v, dtype=float)
+    sym = np.ones(L.n, dtype=bool)
+    for nm in ('b1', 'b2', 'g1', 'g2'):
+        sym &= np.asarray(getattr(L, nm).v, dtype=float) == 0
+    tap, phi = np.asarray(L.tap.v, dtype=float), np.asarray(L.phi.v, dtype=float)
+    V1 = np.asarray(L.v1.v, dtype=float) * np.exp(1j * np.asarray(L.a1.v, dtype=float))
+    V2 = np.asarray(L.v2.v, dtype=float) * np.exp(1j * np.asarray(L.a2.v, dtype=float))
+    with np.errstate(all='ignore'):
+        y = 1.0 / (r + 1j * x)
+        ysh = (g + 1j * b) / 2.0
+        m = tap * np.exp(1j * phi)
+        I1 = (V1 / m - V2) * y / np.conj(m) + V1 * ysh / (tap ** 2)
+        I2 = (V2 - V1 / m) * y + V2 * ysh
+        S1 = u * V1 * np.conj(I1)
+        S2 = u * V2 * np.conj(I2)
+    got1 = np.asarray(L.a1.e, dtype=float) + 1j * np.asarray(L.v1.e, dtype=float)
+    got2 = np.asarray(L.a2.e, dtype=float) + 1j * np.asarray(L.v2.e, dtype=float)
+    n = 0
+    for k in range(L.n):
+        if not sym[k] or not np.isfinite(S1[k]) or not np.isfinite(S2[k]) or min(abs(r[k]), 1.0) + abs(x[k]) < 1e-4:
+            continue
+        n += 1
+        scale = max(abs(S1[k]), abs(S2[k]), abs(V1[k]) ** 2 * abs(y[k]) * 1e-3)
+        e = max(abs(S1[k] - got1[k]), abs(S2[k] - got2[k]))
+        if not e <= tol_abs + tol_rel * scale:
+            out.append(V('line_effect', 'Line %s has status u=%g, but the power it injects into the network equations (%.6g%+.6gj at '
+                         'bus1, %.6g%+.6gj at bus2) is not that of its data with this status (%.6g%+.6gj, %.6g%+.6gj)' %
+                         (L.idx.v[k], u[k], got1[k].real, got1[k].imag, got2[k].real, got2[k].imag, S1[k].real, S1[k].imag,
+                          S2[k].real, S2[k].imag), what='status_not_in_equations', status=int(u[k])))
+            break
+    return out, n
 
 
 def o_grid(hist, ss, t0=0.0):
